@@ -364,11 +364,14 @@ type c14env struct {
 	full    int
 	pairs   bool
 	child   *bufio.Writer     // non-nil: child mode (one base load per configuration, digests written)
+	only    map[string]bool   // child: the cases the parent wants re-loaded
 	digests map[string]string // parent: case id -> digest of base decisions of consistent cases
 	order   []string
 	loads   int64
 	probesN int64
 	idx     int
+	mine    int
+	pass    int
 	stop    bool
 }
 
@@ -559,13 +562,19 @@ type c14obs struct {
 	dec  []string // decisions when accepted
 }
 
-// compare reports the first disagreement between observations; kind "" = all agree.
+// compare reports a disagreement between observations; kind "" = all agree. When several
+// decisions differ, the most significant difference is reported (accept/reject, then route, then
+// sub-cluster, then backend, then error), so that one configuration always gets the same kind.
 func c14compare(obs []c14obs) (kind string, a, b *c14obs, probe int) {
 	if len(obs) == 0 {
 		return "", nil, nil, -1
 	}
+	rank := map[string]int{"route": 0, "sub-cluster": 1, "backend": 2, "error": 3}
+	best := 99
+	probe = -1
+	// the reference is the first accepted observation (or the first one)
 	ref := &obs[0]
-	for i := 1; i < len(obs); i++ {
+	for i := range obs {
 		o := &obs[i]
 		if (o.rej == "") != (ref.rej == "") {
 			return "accept-vs-reject", ref, o, -1
@@ -575,11 +584,14 @@ func c14compare(obs []c14obs) (kind string, a, b *c14obs, probe int) {
 		}
 		for j := range o.dec {
 			if o.dec[j] != ref.dec[j] {
-				return c14component(ref.dec[j], o.dec[j]) + "-differs", ref, o, j
+				comp := c14component(ref.dec[j], o.dec[j])
+				if rank[comp] < best {
+					best, kind, a, b, probe = rank[comp], comp+"-differs", ref, o, j
+				}
 			}
 		}
 	}
-	return "", nil, nil, -1
+	return kind, a, b, probe
 }
 
 // c14component names the first component (in routing order) in which two decisions differ.
@@ -597,7 +609,10 @@ func c14component(a, b string) string {
 	}
 	for _, f := range []string{"product", "cluster", "sub", "backend"} {
 		if field(a, f) != field(b, f) {
-			if f == "sub" {
+			switch f {
+			case "product", "cluster":
+				return "route"
+			case "sub":
 				return "sub-cluster"
 			}
 			return f
@@ -606,19 +621,35 @@ func c14component(a, b string) string {
 	return "error"
 }
 
-// runCase executes one configuration completely.
-func (e *c14env) runCase(c *c14cfg) {
+// want says whether the configuration with this id must be built and run by this process
+// (shard, deadline, replay, child mode). It is called exactly once per enumerated configuration,
+// before anything is built for it.
+func (e *c14env) want(id string) bool {
 	e.idx++
 	if e.stop || !e.r.Mine(e.idx) {
-		return
+		return false
+	}
+	// two passes over the whole enumeration: the first takes every 8th configuration of this
+	// shard, the second the rest, so that an internal deadline leaves a sample of every family
+	e.mine++
+	if (e.mine%8 == 0) != (e.pass == 0) {
+		return false
+	}
+	if e.child != nil && !e.only[id] {
+		return false
+	}
+	if e.r.Replaying() && e.r.ReplayCase() != id {
+		return false
 	}
 	if e.r.Expired("configuration enumeration") {
 		e.stop = true
-		return
+		return false
 	}
-	if !e.r.Case(c.id) {
-		return
-	}
+	return e.r.Case(id)
+}
+
+// runCase executes one configuration completely (want(c.id) was true).
+func (e *c14env) runCase(c *c14cfg) {
 	if e.child != nil {
 		e.writeCfg(c, nil)
 		l, rej := e.load(c, 0)
@@ -873,7 +904,7 @@ func (e *c14env) familyH() {
 	r := e.r
 	hosts := []string{"a.com", "A.com", "a.com.", "b.com", "*.a.com", "*.A.com"}
 	tags := []string{"t1", "t2"}
-	maxEntries := r.Pick(2, 4)
+	maxEntries := r.Pick(3, 4)
 	var slots []c14hostEntry
 	for _, h := range hosts {
 		for _, t := range tags {
@@ -913,7 +944,7 @@ func (e *c14env) familyH() {
 }
 
 func (e *c14env) oneH(entries []c14hostEntry, tagProds map[string][]string, bg bool, def, id string, route, cc *c14j, probes []c14probe) {
-	if e.stop {
+	if !e.want(id) {
 		return
 	}
 	hostsObj := c14o(true)
@@ -1053,6 +1084,9 @@ func (e *c14env) familyV() {
 		{host: "zzz.org", path: "/", vip: "3.3.3.3"}, {host: "zzz.org", path: "/"}, {host: "p2.only", path: "/", vip: "1.1.1.1"}}
 	c14subsets(len(slots), maxEntries, func(sel []int) {
 		id := vk.Key("V", sel)
+		if !e.want(id) {
+			return
+		}
 		entries := make([]ent, len(sel))
 		by := map[string][]string{}
 		for i, s := range sel {
@@ -1149,6 +1183,10 @@ func (e *c14env) familyR() {
 	emit := func(rs []rule, idp string) {
 		for i2, p2 := range p2opts {
 			for _, adv := range advOpts {
+				id := vk.Key("R", idp, i2, adv)
+				if !e.want(id) {
+					continue
+				}
 				basic := c14o(true)
 				if len(rs) > 0 {
 					basic.add("p1", mk(rs))
@@ -1162,7 +1200,7 @@ func (e *c14env) familyR() {
 						"p1", c14a(false, c14o(false, "Cond", `req_path_prefix_in("/x", false)`, "ClusterName", "c3"), c14o(false, "Cond", "default_t()", "ClusterName", "c1")),
 						"p2", c14a(false, c14o(false, "Cond", "default_t()", "ClusterName", "c2"))))
 				}
-				c := &c14cfg{fam: "R", id: vk.Key("R", idp, i2, adv), probes: probes}
+				c := &c14cfg{fam: "R", id: id, probes: probes}
 				c.files[c14fHost] = hf
 				c.files[c14fVip] = c14vipEmpty()
 				c.files[c14fRoute] = rf
@@ -1239,6 +1277,9 @@ func (e *c14env) familyG() {
 								strings.HasPrefix(kind, "dup-sub-key") && w1 < 0 {
 								continue
 							}
+							if !e.want(id) {
+								continue
+							}
 							gs := c14o(true)
 							ct := c14o(true)
 							if w1 >= 0 {
@@ -1276,14 +1317,10 @@ func (e *c14env) familyG() {
 							c.files[c14fGslb] = c14o(false, "Clusters", c14o(true, "c1", gs, "c2", c14o(true, "s9", 1)), "Hostname", "gslb.test", "Ts", "1")
 							c.files[c14fClusterTable] = c14o(false, "Version", "v1", "Config", c14o(true, "c1", ct, "c2", c2sub()))
 							k := kind
-							sticky := st == 1
 							c.attribute = func(scen string, pr *c14probe) string {
 								cls := k
 								if strings.HasPrefix(scen, "reload-over-other-table") && k != "dup-backend-addr" {
 									cls = "distinct-backends"
-								}
-								if sticky {
-									cls += "+sticky"
 								}
 								return cls
 							}
@@ -1306,6 +1343,9 @@ func (e *c14env) familyS() {
 	}
 	src := [c14nFiles]string{"conf/server_data_conf/host_rule.data", "conf/server_data_conf/vip_rule.data", "conf/server_data_conf/route_rule.data",
 		"conf/server_data_conf/cluster_conf.data", "conf/cluster_conf/gslb.data", "conf/cluster_conf/cluster_table.data"}
+	if !e.want("S|repo-conf") {
+		return
+	}
 	c := &c14cfg{fam: "S", id: "S|repo-conf", bal: true}
 	for i, p := range src {
 		b, err := os.ReadFile(filepath.Join(repo, p))
@@ -1328,6 +1368,14 @@ func (e *c14env) familyS() {
 // ---------------------------------------------------------------------------------------------
 
 func (e *c14env) families() {
+	for e.pass = 0; e.pass < 2; e.pass++ {
+		e.idx, e.mine = 0, 0
+		e.familiesOnce()
+	}
+}
+
+func (e *c14env) familiesOnce() {
+	// the largest family last: an internal deadline then cuts only its tail
 	e.familyS()
 	e.familyHE()
 	e.familyV()
@@ -1356,8 +1404,8 @@ func TestVerifC14(t *testing.T) {
 
 	e := &c14env{t: t, r: r, dir: dir, digests: map[string]string{}}
 	debug.SetGCPercent(1000)
-	e.reps = r.Pick(6, 10)
-	e.lightReps = r.Pick(2, 3)
+	e.reps = r.Pick(6, 12)
+	e.lightReps = r.Pick(2, 4)
 	e.full = r.Pick(3, 4)
 	e.pairs = r.Thorough()
 
@@ -1367,6 +1415,14 @@ func TestVerifC14(t *testing.T) {
 			t.Fatalf("c14 child: %v", err)
 		}
 		e.child = bufio.NewWriter(f)
+		e.only = map[string]bool{}
+		ids, err := os.ReadFile(os.Getenv("VERIF_C14_ONLY"))
+		if err != nil {
+			t.Fatalf("c14 child: %v", err)
+		}
+		for _, id := range strings.Split(string(ids), "\n") {
+			e.only[id] = true
+		}
 		e.families()
 		e.child.Flush()
 		f.Close()
@@ -1379,8 +1435,12 @@ func TestVerifC14(t *testing.T) {
 	// rendering of every configuration of this shard once and must reproduce the decisions.
 	if len(e.digests) > 0 {
 		out := filepath.Join(dir, "child.tsv")
+		onlyFile := filepath.Join(dir, "only.txt")
+		if err := os.WriteFile(onlyFile, []byte(strings.Join(e.order, "\n")), 0o644); err != nil {
+			t.Fatalf("c14: %v", err)
+		}
 		cmd := exec.Command(os.Args[0], "-test.run", "^TestVerifC14$", "-test.timeout", "1500s")
-		cmd.Env = append(os.Environ(), "VERIF_C14_CHILD="+out, "VERIF_OUT="+filepath.Join(dir, "child-out.json"),
+		cmd.Env = append(os.Environ(), "VERIF_C14_CHILD="+out, "VERIF_C14_ONLY="+onlyFile, "VERIF_OUT="+filepath.Join(dir, "child-out.json"),
 			"VERIF_REPLAY_DIR="+dir, "VERIF_BUDGET_S=0")
 		if b, err := cmd.CombinedOutput(); err != nil {
 			t.Fatalf("c14: child process failed: %v\n%s", err, b)
@@ -1401,14 +1461,11 @@ func TestVerifC14(t *testing.T) {
 		for _, id := range ids {
 			got, ok := child[id]
 			if !ok {
-				if e.stop {
-					continue
-				}
 				t.Fatalf("c14: child process did not report case %s", id)
 			}
 			compared++
 			if got != e.digests[id] {
-				r.Violation(strings.SplitN(id, "|", 2)[0]+":other-process:decision-differs", id,
+				r.Violation(strings.SplitN(id, "|", 2)[0]+":other-process:decision-differs-between-processes", id,
 					fmt.Sprintf("parent process decided %q, child process decided %q", e.digests[id], got))
 			}
 		}
